@@ -108,5 +108,5 @@ CONTRACTS = [
     dict(name='roundtrip_with_renamed_keys', twin='roundtrip_renamed_twin', what='dictionary round trip with renamed keys'),
     dict(name='inequality_is_detected', twin='inequality_twin', what='managers with different option lists compare unequal'),
     dict(name='find_returns_matching_tasks', twin='find_twin', what='OptionManager.find returns exactly the tasks whose option equals the value',
-         timeout={'quick': 60, 'thorough': 240}),
+         timeout={'quick': 30, 'thorough': 240}),
 ]
